@@ -16,7 +16,7 @@ TAGS = {
     "C04": ("C04_", "C07_NilNotInstalled", "C07_ErrMismatch"),
     "C05": ("C05_",),
     "C06": ("C06_",),
-    "C07": ("C07_",),
+    "C07": ("C07_", "C08_Hang"),
     "C08": ("C08_",),
     "C09": ("C09_",),
 }
@@ -56,6 +56,13 @@ def gen_scenario(rng, family, idx, mode):
         sc["suppress"] = rng.random() < 0.5
     if family == "C06":
         sc["cbcap"] = rng.choice([1, 2, 2, 3, 64])
+    if family == "C09" and rng.random() < 0.15:
+        # no watching source at all: EnableVerification has no monitor to talk to
+        sc["delay"] = True
+        sc["def"] = {"x": rng.choice([1, 9, 19]), "y": rng.choice([0, 2, 9])}
+        sc["init"] = []
+        sc["procs"] = {"c1": [{"op": rng.choice(["enable", "enable", "view"])} for _ in range(rng.randint(1, 4))]}
+        return sc
     # initial values must let Config succeed unless the family wants failing starts
     init = []
     for s in range(1, nsrc + 1):
@@ -129,8 +136,8 @@ def gen_scenario(rng, family, idx, mode):
         sc["pcancel"], sc["cancelok"] = 0.08, ["rep"]
     elif family == "C08":
         sc["pcancel"], sc["cancelok"] = 0.06, ["rep", "cli", "ctx"]
-    elif family == "C09" and rng.random() < 0.3:
-        sc["pcancel"], sc["cancelok"] = 0.05, ["cli"]
+    elif family == "C09" and rng.random() < 0.5:
+        sc["pcancel"], sc["cancelok"] = 0.12, ["cli"]
     return sc
 
 
